@@ -44,6 +44,9 @@ func init() {
 			{ID: "C11-R18", Title: "loaded code entries are fresh (shared with C07)", Floor: 2, Run: loadedCodeEntriesAreFresh},
 			{ID: "C11-R19", Title: "supplied globals replace the old ones", Floor: 1, Run: suppliedGlobalsReplaceTheOldOnes},
 			{ID: "C11-R20", Title: "member names are last segments", Floor: 1, Run: memberNamesAreLastSegments},
+			{ID: "C11-R21", Title: "risor.Call runs the given code before it looks the function up (shared with C07-R13)", Floor: 1, Run: callRunsTheCodeFirst},
+			{ID: "C11-R22", Title: "a refused invocation writes nothing to the VM (shared with C06-R22)", Floor: 8, Run: refusedInvocationsWriteNothing},
+			{ID: "C11-R23", Title: "options that are refused are rolled back (shared with C07-R31)", Floor: 3, Run: refusedOptionsAreRolledBack},
 		},
 	})
 }
